@@ -288,6 +288,7 @@ static int replay_main(const Options &o) {
   Stats st;
   Outcome out = pe->check(c, st);
   printf("HASH %llx\n", (unsigned long long)out.hash);
+  printf("TICKS %ld\n", sim::hooks().ticks);
   if (!out.refusal.empty())
     printf("REFUSAL %s\n", out.refusal.c_str());
   if (out.violated) {
@@ -353,6 +354,24 @@ static int minimise_main(const Options &o) {
 struct KnownFinding {
   std::string id, status, what, overrides, reproducer;
   std::vector<std::string> properties;
+  Json applies_if; // optional: {"domain": name, "params": {key: value,...}} the case must match
+  // attribution to this finding is only attempted on cases it can be about
+  bool applies(const Json &cs) const {
+    if (applies_if.kind != Json::OBJ)
+      return true;
+    if (applies_if.has("domain") &&
+        (!cs.has("domain") || cs.at("domain").as_str() != applies_if.at("domain").as_str()))
+      return false;
+    if (applies_if.has("params")) {
+      if (!cs.has("params"))
+        return false;
+      for (auto &kv : applies_if.at("params").o)
+        if (!cs.at("params").has(kv.first) ||
+            cs.at("params").at(kv.first).dump() != kv.second.dump())
+          return false;
+    }
+    return true;
+  }
 };
 static std::vector<KnownFinding> load_known_findings() {
   std::vector<KnownFinding> r;
@@ -368,6 +387,8 @@ static std::vector<KnownFinding> load_known_findings() {
     k.reproducer = e.at("reproducer").as_str();
     if (e.has("neutraliser"))
       k.overrides = e.at("neutraliser").dump();
+    if (e.has("applies_if"))
+      k.applies_if = e.at("applies_if");
     for (auto &p : e.at("properties").a)
       k.properties.push_back(p.as_str());
     r.push_back(k);
@@ -613,6 +634,8 @@ static int property_main(const Options &o) {
         continue;
       if (std::find(k.properties.begin(), k.properties.end(), o.property) == k.properties.end())
         continue;
+      if (!k.applies(cj.at("case")))
+        continue;
       std::string cn, hn, dn;
       if (fresh_replay(raw, k.overrides, cn, hn, dn) && cn != cls) {
         attributed = k.id;
@@ -664,6 +687,8 @@ static int property_main(const Options &o) {
           continue;
         if (std::find(k.properties.begin(), k.properties.end(), o.property) ==
             k.properties.end())
+          continue;
+        if (!k.applies(cj.at("case")))
           continue;
         std::string cn, hn, dn;
         if (fresh_replay(fin, k.overrides, cn, hn, dn) && cn != cls)
